@@ -37,28 +37,31 @@ Theorem C20_empty_input : forall c tmpl outs, charge_init (limiters0 c) (c_init 
 Proof. exact replace_empty_input. Qed.
 Print Assumptions C20_empty_input.
 
-(* -I, -n and -L all given (at positions a, b, c): the one given last is in force *)
-Theorem C20_last_option_wins : forall n l r i_n i_l i_r,
-  n <> None -> l <> None -> r = true ->
-  match i_n, i_l, i_r with
-  | Some a, Some b, Some c =>
-      a <> b -> a <> c -> b <> c ->
-      normalize n l r i_n i_l i_r =
-      if (a <? b) && (c <? b) then (None, l, false)
-      else if (b <? a) && (c <? a) then (n, None, false)
-      else (Some 1%N, None, true)
-  | _, _, _ => True end.
+(* -I, -n and -L in any number and order: the one given last is in force (a final -n 1 gives one argument per run whether or
+   not an -I before it stays in force) *)
+Theorem C20_last_option_wins : forall os,
+  (forall k, normalize (os ++ [OL k]) = (None, Some k, false)) /\
+  normalize (os ++ [OI]) = (Some 1%N, None, true) /\
+  (forall k, k <> 1%N -> normalize (os ++ [ON k]) = (Some k, None, false)) /\
+  (exists r, normalize (os ++ [ON 1%N]) = (Some 1%N, None, r)).
 Proof. exact normalize_last. Qed.
 Print Assumptions C20_last_option_wins.
 
-Theorem C20_I_with_n1 : forall i_n i_l i_r,
-  normalize None None true i_n i_l i_r = (Some 1%N, None, true) /\
-  normalize (Some 1%N) None true i_n i_l i_r = (Some 1%N, None, true).
-Proof. exact normalize_I_alone. Qed.
+(* -I with -n 1 is not a conflict: whichever comes last, -I is in force *)
+Theorem C20_I_with_n1 : forall os,
+  normalize (os ++ [OI; ON 1%N]) = (Some 1%N, None, true) /\ normalize (os ++ [ON 1%N; OI]) = (Some 1%N, None, true) /\
+  normalize (os ++ [OI]) = (Some 1%N, None, true).
+Proof. exact normalize_I_n1. Qed.
 Print Assumptions C20_I_with_n1.
+
+(* never two of them at once *)
+Theorem C20_one_mode : forall os, one_mode (batch_mode os).
+Proof. exact batch_mode_one_mode. Qed.
+Print Assumptions C20_one_mode.
 
 (* non-vacuity: R = "{}", line "a b", argument "x{}y{}{" *)
 Example C20_witness :
   str_replace [123; 125] [97; 32; 98] [120; 123; 125; 121; 123; 125; 123] = [120; 97; 32; 98; 121; 97; 32; 98; 123]
-  /\ normalize (Some 3%N) (Some 2%N) true (Some 2) (Some 6) (Some 4) = (None, Some 2%N, false).
-Proof. vm_compute. split; reflexivity. Qed.
+  /\ normalize [ON 3%N; OI; OL 2%N] = (None, Some 2%N, false)
+  /\ normalize [OL 1%N; OI; ON 1%N] = (Some 1%N, None, true) /\ normalize [OI; ON 2%N; ON 1%N] = (Some 1%N, None, false).
+Proof. vm_compute. repeat split; reflexivity. Qed.
